@@ -54,7 +54,7 @@ type Proof struct {
 }
 
 func (p *Proof) IsValid(public Public) bool {
-	if p == nil {
+	if p == nil || p.Commitment == nil {
 		return false
 	}
 	if !arith.IsValidNatModN(public.Prover.N(), p.U, p.V) {
